@@ -246,7 +246,9 @@ ALSO = {
     # chronological order across types: the mixed comparisons
     'C07': lambda c, r: c['prop'] == 'C17' and ('compar' in c['clause'] or 'cmp' in c['clause'].lower()),
     # the three date-like types satisfy the same characterisation of truncation / rounding / last day / month arithmetic
-    'C17': lambda c, r: c['prop'] == 'C09' or (c['prop'] in ('C10', 'C11') and ('timestamp::Timestamp' in r['root'] or 'oracle::Date' in r['root'])),
+    # ... and the same exact-arithmetic characterisation of interval arithmetic and differences (C08 / C16 contracts of the add_* / sub_* operations)
+    'C17': lambda c, r: c['prop'] == 'C09' or (c['prop'] in ('C10', 'C11') and ('timestamp::Timestamp' in r['root'] or 'oracle::Date' in r['root']))
+    or (c['prop'] in ('C08', 'C16') and re.match(r'^(date::Date|timestamp::Timestamp|oracle::Date)::(add|sub)_', r['root']) is not None),
     # a run of blanks is rendered with its length: the lexer's blank rules
     'C04': lambda c, r: (c['prop'] == 'C19' and any(x in c['clause'] for x in ('lank', 'style', 'MonthName', 'DayName', 'AmPm')))
     or (c['prop'] == 'C01' and c['root'] == 'common::the_day_of_year'),
@@ -482,8 +484,63 @@ def extra_C15(rep, ctx):
         raise AnalysisIncomplete(f"serde static-agreement rule saw {len(info)} types, expected {need}")
 
 
+def float_forms(rep, ctx, props):
+    """stage E1f (sda/floatform.py): fractional seconds scaled through f64 - parse_fraction rounds half-up (C05),
+    NaiveDateTime::fraction truncates (C04); both are necessary conditions of the round trip (C06)"""
+    if ctx.cfg in pipeline.ONLY:
+        return
+    d = pipeline.load_json(pipeline.ensure_stage('e1f', ctx.cfg))
+    n = {'proved': 0, 'refuted': 0, 'undecided': 0}
+    for r in d['records']:
+        if r['prop'] not in props:
+            continue
+        fn = 'format::parse_fraction' if r['prop'] == 'C05' else 'format::NaiveDateTime::fraction'
+        key = f"R-ens|{fn}|{r['clause']}"
+        if r['ok'] is None:
+            n['undecided'] += 1
+            rep.notes.append(f"[{ctx.cfg}] E1f undecided (not a violation): {fn}: {r['clause']} -- {r['detail'][:300]}")
+            continue
+        n['proved' if r['ok'] else 'refuted'] += 1
+        rep.ob(key, r['ok'], f"R-ens {fn}: {r['clause']} -- {r['detail'][:500]}", {'floatform': r, 'config': ctx.cfg}, rule='E1f-float-form')
+        if r['ok'] and len(rep.samples) < 12:
+            rep.sample({'contract': key, 'status': r['detail'][:200]})
+    for t in d['notes']:
+        rep.notes.append(f"[{ctx.cfg}] E1f: {t}")
+    rep.extra.setdefault('float_forms', {})[ctx.cfg] = dict(n, exits=d['exits'])
+
+
 def extra_C06(rep, ctx):
     tables.c06_widths(rep, ctx.facts)
+    float_forms(rep, ctx, ('C04', 'C05'))
+    digit_rendering(rep, ctx)
+
+
+def extra_C05(rep, ctx):
+    float_forms(rep, ctx, ('C05',))
+
+
+def digit_rendering(rep, ctx):
+    """stage E1h (sda/digits.py): write_u32 writes the zero-padded decimal expansion (per digit count and width)"""
+    if ctx.cfg in pipeline.ONLY:
+        return
+    d = pipeline.load_json(pipeline.ensure_stage('e1h', ctx.cfg))
+    n = {'proved': 0, 'refuted': 0, 'undecided': 0}
+    for r in d['records']:
+        key = f"R-ens|format::write_u32|{r['clause']}"
+        if r['ok'] is None:
+            n['undecided'] += 1
+            rep.notes.append(f"[{ctx.cfg}] E1h undecided (not a violation): {r['clause']} -- {r['detail'][:300]}")
+            continue
+        n['proved' if r['ok'] else 'refuted'] += 1
+        rep.ob(key, r['ok'], f"R-ens format::write_u32: {r['clause']} -- {r['detail'][:400]}", {'digits': r, 'config': ctx.cfg}, rule='E1h-decimal-digits')
+    for t in d['notes']:
+        rep.notes.append(f"[{ctx.cfg}] E1h: {t}")
+    rep.extra.setdefault('digit_rendering', {})[ctx.cfg] = dict(n, instances=d['instances'], classes=d['classes'])
+
+
+def extra_C04(rep, ctx):
+    float_forms(rep, ctx, ('C04',))
+    digit_rendering(rep, ctx)
 
 
 def extra_C19(rep, ctx):
@@ -500,15 +557,35 @@ def extra_C16(rep, ctx):
     e1_obligations(rep, ctx, lambda o: o['kind'] == 'R-inv' and o['desc'] == 'construct oracle::Date')
 
 
+def cmp_constants(rep, ctx, prop):
+    """stage E1g (sda/cmpstage.py): a constant answer of a mixed partial_cmp must be possible for the converted counts"""
+    if ctx.cfg in pipeline.ONLY:
+        return
+    d = pipeline.load_json(pipeline.ensure_stage('e1g', ctx.cfg))
+    for r in d['records']:
+        if r['prop'] != prop:
+            continue
+        key = f"R-ens|{r['root']}|{r['clause']}"
+        rep.ob(key, r['ok'], f"R-ens {r['root']}: {r['clause']} -- {r['detail'][:400]}", {'cmpstage': r, 'config': ctx.cfg}, rule='E1g-constant-ordering')
+    for t in d['notes']:
+        rep.notes.append(f"[{ctx.cfg}] E1g (undecided, not a violation): {t}")
+    rep.extra.setdefault('mixed_partial_cmp', {})[ctx.cfg] = {'roots': d['roots'], 'exits': d['exits']}
+
+
+def extra_C12(rep, ctx):
+    cmp_constants(rep, ctx, 'C12')
+
+
 def extra_C17(rep, ctx):
     graph.delegation(rep, ctx.facts)
+    cmp_constants(rep, ctx, 'C17')
 
 
 def extra_C18(rep, ctx):
     graph.clock_readers(rep, ctx.facts)
 
 
-EXTRA_RULES = {'C16': extra_C16, 'C19': extra_C19, 'C06': extra_C06, 'C10': extra_C10, 'C11': extra_C11, 'C15': extra_C15, 'C17': extra_C17, 'C18': extra_C18}
+EXTRA_RULES = {'C12': extra_C12, 'C04': extra_C04, 'C05': extra_C05, 'C16': extra_C16, 'C19': extra_C19, 'C06': extra_C06, 'C10': extra_C10, 'C11': extra_C11, 'C15': extra_C15, 'C17': extra_C17, 'C18': extra_C18}
 
 PROPS = {
     'C01': prop_tables('C01', lambda rep, ctx: tables.c01_tables(rep, ctx.facts),
